@@ -43,8 +43,8 @@ def all_finite_mat(m):
 def params_for(scalar, hard=False):
     """(cu2, floor2, k2max) as Coq terms"""
     if scalar == "f64":
-        return "(q 1 (2^94))", "(q 1 1)", "(q %d 1)" % (10 ** 8 if not hard else 10 ** 10)
-    return "(q 1 (2^36))", "(q 1 1)", "(q 300 1)"
+        return "(q 1 (2^94))", "(q 1 (2^60))", "(q %d 1)" % (10 ** 8 if not hard else 10 ** 10)
+    return "(q 1 (2^36))", "(q 1 (2^60))", "(q 300 1)"
 
 
 def cnatm(n):
@@ -95,3 +95,46 @@ def state_code_text(code):
     if code >= 10:
         return "Jacobian column %d is not -(I - P) W D_k C" % (code - 10)
     return STATE_CODES.get(code, "code %d" % code)
+
+
+# ------------------------------------------------------------------------------------------
+# statistics
+
+STATS_CODES = {1: "no specification (singular / too ill-conditioned; not compared)", 20: "degrees of freedom are not N - M - P",
+               21: "weighted residuals are not W(y - Phi c)", 22: "reduced chi^2 is not ||r_w||^2 / (N - M - P)",
+               23: "regression standard error is not sqrt(reduced chi^2)", 24: "covariance is not chi^2 (H^T H)^-1 with H = W [Phi | D_k c]",
+               25: "covariance is not symmetric", 26: "negative variance", 27: "variance accessors are not the diagonal segments (linear first)",
+               28: "correlation is not covariance / sqrt(c_ii c_jj) within [-1, 1]", 29: "confidence sigma is not sqrt(j_i^T Cov j_i) (unweighted j_i)",
+               30: "confidence band radius is not t((1+p)/2; dof) * sigma_i", 31: "shapes"}
+
+
+def stats_term(case, fitv, tables):
+    """Coq term num_stats ... ; the fit result `fitv` carries 'stats', the tables are those at the final parameters"""
+    st = fitv["stats"]
+    m = case["meta"]
+    sc = case["scalar"]
+    w = weights_of(case)
+    y = obs_of(case)[0]
+    c = fitv["lin_coef"]["cols"][0]
+    mats = [st["cov"], st["corr"], tables["phi"]] + list(tables["d"])
+    if any(x is None for x in mats) or not all(all_finite_mat(x) for x in mats):
+        return None
+    vecs = [st["wres"], st["nl_var"], st["lin_var"], st["usigma"], c, [st["chi2"], st["rse"]]]
+    if not all(is_finite_hex(h) for v in vecs for h in v):
+        return None
+    bands = []
+    for b in st["bands"]:
+        if b.get("panic"):
+            continue
+        if not all(is_finite_hex(h) for h in b["radius"]):
+            return None
+        bands.append("(%s, %s)" % (qfr(Fraction(b["t"])), vec(b["radius"])))
+    cu2, floor2, _ = params_for(sc)
+    k2max = "(q 1000000 1)" if sc == "f64" else "(q 50 1)"
+    o = ("{| sb_dof := %s; sb_rw := %s; sb_chi2 := %s; sb_rse := %s; sb_cov := %s; sb_corr := %s; sb_lin_var := %s; "
+         "sb_nl_var := %s; sb_usigma := %s; sb_bands := %s |}"
+         % (cnatm(st["dof"]), vec(st["wres"]), qf(st["chi2"]), qf(st["rse"]), mat(st["cov"]), mat(st["corr"]), vec(st["lin_var"]),
+            vec(st["nl_var"]), vec(st["usigma"]), sseq(bands)))
+    return "num_stats %s %s %s %s %s %s %s %s %s %s %s %s" % (
+        cu2, floor2, k2max, cnatm(m["N"]), cnatm(m["M"]), cnatm(m["P"]), "None" if w is None else "(Some %s)" % vec(w),
+        mat(tables["phi"]), sseq([mat(d) for d in tables["d"]]), vec(y), vec(c), o)
